@@ -170,6 +170,64 @@ export async function run(ctx) {
       }
     }
   }
+  // grid: (how a named type Back mentions Node) x (how Node leads back to Back) - every recursion
+  // route through an intersection / union / utility type / container, all call orders of three parsers
+  {
+    const SHAPES = [
+      ["inter-named-inline", "Node & { label: string }"],
+      ["inter-inline-named", "{ label: string } & Node"],
+      ["inter-named-named", "Node & Extra"],
+      ["inter-three", "Node & Extra & { z?: number }"],
+      ["union-inline", "Node | { leaf: true }"],
+      ["union-null", "Node | null"],
+      ["tagged", '{ kind: "n"; node: Node } | { kind: "l"; label: string }'],
+      ["tagged-named", "TagN | TagL"],
+      ["partial", "Partial<Node>"],
+      ["omit", 'Omit<Node, "id">'],
+      ["pick", 'Pick<Node, "next">'],
+      ["wrapped", "{ wrapped: Node; label?: string }"],
+      ["array", "Node[]"],
+      ["tuple", "[Node, string]"],
+      ["record", "Record<string, Node>"],
+      ["generic", "Box<Node>"],
+      ["generic-inter", "Box<Node> & Extra"],
+      ["interface-extends", null],
+    ];
+    const ROUTES = [
+      ["array", "Back[]"],
+      ["nullable", "Back | null"],
+      ["optional", null],
+      ["record", "Record<string, Back>"],
+      ["tuple-rest", "[Back, ...Back[]]"],
+      ["nested", "{ inner: Back; n?: number }"],
+      ["union-of-two", "Back | Extra"],
+    ];
+    let k = 0;
+    for (const [sn, shape] of SHAPES)
+      for (const [rn, route] of ROUTES) {
+        if (k++ % ctx.of !== ctx.shard) continue;
+        const nodeDecl = route === null ? "type Node = { id: string; next?: Back };" : `type Node = { id: string; next: ${route} };`;
+        const backDecl = shape === null ? "interface Back extends Node { label: string }" : `type Back = ${shape};`;
+        const text = `${nodeDecl}\n${backDecl}\ntype Extra = { label: string };\ntype Box<T> = { v: T; w?: T[] };\ntype TagN = { kind: "n"; node: Node };\ntype TagL = { kind: "l"; label: string };\nexport const Parsers = parse.buildParsers<{ PN: Node; PB: Back; PW: { items: Back[]; first?: Node } }>();\n`;
+        const r = await compileText(ctx, text);
+        if (!r.parsers) {
+          ctx.count("route_grid_refused");
+          continue;
+        }
+        const { Rng } = await import("../lib/rng.mjs");
+        for (const cfg of CONFIGS) {
+          const res = await checkSet(ctx, r.parsers, ["PN", "PB", "PW"], null, null, new Rng(ctx.seed, "route" + sn + rn), cfg, null);
+          if (res.skip) {
+            ctx.count("route_grid_skipped");
+            continue;
+          }
+          ctx.judged(res.judged ?? 1);
+          ctx.count("route_grid_sets");
+          ctx.distinct(h8("route" + sn + rn + cfg.refPathTemplate));
+          if (res.fault) ctx.violation({ signature: `${res.fault.clause}|${res.fault.cause}|route-grid:${sn}`, clause: res.fault.clause, detail: `${res.fault.detail}\nsequence: ${res.fault.seq.join(" > ")}\n${text}`, replay: { kind: "sequence", text, set: ["PN", "PB", "PW"], seq: res.fault.seq, cfg, override: null } });
+        }
+      }
+  }
   const nProgs = ctx.share(8000, 120000);
   let sampled = 0;
   const loops = [
